@@ -331,22 +331,71 @@ def gen_versions(src: Path):
 
     # default-version literal of the server's initialize handler
     default = None
+
+    def module_constants(path, depth=0):
+        """module-level NAME = <literal> bindings, following `from .x import NAME` one level"""
+        out = {}
+        try:
+            tree = ast.parse(path.read_text())
+        except Exception:
+            return out
+        for n in tree.body:
+            if isinstance(n, ast.Assign) and len(n.targets) == 1 and isinstance(n.targets[0], ast.Name):
+                try:
+                    out[n.targets[0].id] = ast.literal_eval(n.value)
+                except Exception:
+                    if isinstance(n.value, ast.Name) and n.value.id in out:
+                        out[n.targets[0].id] = out[n.value.id]
+                    elif (isinstance(n.value, ast.Subscript) and isinstance(n.value.value, ast.Name)
+                          and n.value.value.id in out and isinstance(n.value.slice, ast.Constant)):
+                        try:
+                            out[n.targets[0].id] = out[n.value.value.id][n.value.slice.value]
+                        except Exception:
+                            pass
+            elif isinstance(n, ast.ImportFrom) and depth < 2 and n.module:
+                base = path.parent
+                for _ in range(max(n.level - 1, 0)):
+                    base = base.parent
+                if n.level == 0:
+                    if not n.module.startswith("chuk_mcp"):
+                        continue
+                    base = src
+                    parts = n.module.split(".")[1:]
+                else:
+                    parts = n.module.split(".")
+                cand = base.joinpath(*parts).with_suffix(".py")
+                if not cand.exists():
+                    cand = base.joinpath(*parts, "__init__.py")
+                if cand.exists():
+                    sub = module_constants(cand, depth + 1)
+                    for a in n.names:
+                        if a.name in sub:
+                            out[a.asname or a.name] = sub[a.name]
+        return out
+
     try:
-        ph = ast.parse((src / "server/protocol_handler.py").read_text())
+        php = src / "server/protocol_handler.py"
+        ph = ast.parse(php.read_text())
         for n in ast.walk(ph):
             if (
                 isinstance(n, ast.Call) and isinstance(n.func, ast.Attribute) and n.func.attr == "get"
                 and n.args and isinstance(n.args[0], ast.Constant) and n.args[0].value == "protocolVersion"
                 and len(n.args) > 1
             ):
+                arg = n.args[1]
                 try:
-                    default = ast.literal_eval(n.args[1])
+                    default = ast.literal_eval(arg)
                 except Exception:
-                    default = None
+                    consts = module_constants(php)
+                    if isinstance(arg, ast.Name) and arg.id in consts:
+                        default = consts[arg.id]
+                    else:
+                        report["untranslatable"].append(
+                            f"protocol_handler.py:{n.lineno}: default of params.get('protocolVersion', …) is not a literal or a module constant")
     except Exception as ex:  # noqa
         report["untranslatable"].append(f"protocol_handler.py: {ex}")
     if not isinstance(default, str):
-        # not an error by itself: recorded as absent
+        # a non-string default (e.g. None) behaves like an absent version
         default = None
     ok = "true" if not report["untranslatable"] else "false"
     lean = f"""-- GENERATED by verifpy/translate.py from versioning.py, batching.py, protocol_handler.py. Do not edit.
